@@ -10,14 +10,14 @@ git checkout -q -- .
 README=$(ls "$D"/demo/README* | head -1)
 DEMO=$(ls "$D"/demo/*.rs | head -1); NAME=$(basename "$DEMO" .rs)
 if grep -q "mpd_protocol/tests" "$README"; then CRATE=mpd_protocol; else CRATE=mpd_client; fi
-FEAT=""; if grep -q -- "--features async" "$README"; then FEAT="--features async"; fi
+FEAT=$(grep -oE -- "--features (async|chrono)(,(async|chrono))*" "$README" | head -1)
 cleanup() { rm -f "$WT/$CRATE/tests/$NAME.rs"; rmdir "$WT/$CRATE/tests" 2>/dev/null; git -C "$WT" checkout -q -- .; }
 trap cleanup EXIT
 git apply --check "$D/patch.diff" || { echo "VERIFY $WT $M: patch does not apply"; exit 1; }
 git apply "$D/patch.diff"
 suite=$(cargo test --workspace --offline 2>&1 | grep -E "^test result" | awk '{p+=$4; f+=$6} END {print p" passed "f" failed"}')
 mkdir -p "$WT/$CRATE/tests"; cp "$DEMO" "$WT/$CRATE/tests/$NAME.rs"
-with=$(timeout 600 cargo test --offline -p $CRATE $FEAT --test $NAME 2>&1 | grep -E "^test result|error(\[|:)" | head -2 | tr '\n' ' ')
+with=$(timeout 600 cargo test --offline -p $CRATE $FEAT --test $NAME 2>&1 | grep -E "^test result|^error(\[|:)" | head -2 | tr '\n' ' ')
 git checkout -q -- .
-without=$(timeout 600 cargo test --offline -p $CRATE $FEAT --test $NAME 2>&1 | grep -E "^test result|error(\[|:)" | head -2 | tr '\n' ' ')
+without=$(timeout 600 cargo test --offline -p $CRATE $FEAT --test $NAME 2>&1 | grep -E "^test result|^error(\[|:)" | head -2 | tr '\n' ' ')
 echo "VERIFY $WT $M: suite_with_mutation=[$suite] demo_with=[$with] demo_without=[$without]"
